@@ -1,11 +1,38 @@
-"""C01 - see coq/props/C01.v and props/life_check.py (shared lifecycle check)."""
+"""C01 - process state changes follow the documented lifecycle graph.
+
+Decided by coq/props/C01.v (trace well-formedness of every run of the lifecycle model) and tied to /repo by the
+shared lifecycle correspondence (props/life_check.py).  The clause "each change is announced by exactly one
+PROCESS_STATE notification ... so an observer replaying notifications always knows the reported state" is also a
+statement about how notifications reach observers (listener pools): that part is the C11 correspondence (routing:
+one envelope per matching event per subscribed pool, subscription and unsubscription), which is run here as well.
+"""
+import importlib
+
+import vlib
 import life_check
 
 LEVEL = 'proof'
 
 
+def _sub(chk, modname):
+    mod = importlib.import_module(modname)
+    sub = vlib.Check('C01', chk.tier, chk.seed, level='proof')
+    mod.run(sub)
+    for path, nofail in sub.violations:
+        chk.violations.append((path, nofail))
+    cov, sc = chk.coverage, sub.coverage
+    cov['evaluations'] += sc.get('evaluations', 0)
+    cov['traces_validated_against_impl'] += sc.get('traces_validated_against_impl', 0)
+    cov['distinct_nontrivial'] += sc.get('distinct_nontrivial', 0)
+    cov.setdefault('sub_checks', {})[modname] = {'evaluations': sc.get('evaluations', 0), 'violations': len(sub.violations)}
+    cov['obligations'] += sc.get('obligations', 0)
+    cov['discharged'] += sc.get('discharged', 0)
+
+
 def run(chk):
     life_check.run_property(chk, 'C01', 'props/C01.v')
+    _sub(chk, 'c11')
+    chk.coverage['rule'] += '; plus the C11 correspondence (notifications as received by listener pools)'
 
 
 def replay(chk, path):
